@@ -30,6 +30,7 @@ func init() {
 		"strings.Replace":                   iStringsReplace,
 		"strings.ReplaceAll":                iStringsReplaceAll,
 		"strings.ToLower":                   iStringsToLower,
+		"strings.EqualFold":                 iStringsEqualFold,
 		"bytes.Equal":                       iBytesEqual,
 		"(*bytes.Buffer).Write":             iBufWrite,
 		"(*bytes.Buffer).WriteString":       iBufWriteString,
@@ -360,6 +361,45 @@ func iStringsToLower(in *Interp, fn *ssa.Function, a []Value) Value {
 		out[i] = in.tt.Ite(isUp, in.tt.Bin(OpAdd, b, in.tt.b8[32]), b)
 	}
 	return StrV{b: out}
+}
+
+// iStringsEqualFold: concrete operands go through the real function; symbolic bytes must be ASCII
+// (then folding is per byte; a symbolic non-ASCII byte is outside the model). An ASCII string can only
+// fold onto a non-ASCII one through U+017F (long s) and U+212A (Kelvin sign), which the concrete side
+// decides: strings of different byte length where one side is all-ASCII-symbolic are compared by
+// enumerating nothing - they are reported unsupported unless the concrete side is ASCII too.
+func iStringsEqualFold(in *Interp, fn *ssa.Function, a []Value) Value {
+	x, y := a[0].(StrV), a[1].(StrV)
+	cx, okx := concreteString(x)
+	cy, oky := concreteString(y)
+	if okx && oky {
+		return in.tt.Bool(strings.EqualFold(cx, cy))
+	}
+	for _, s := range []StrV{x, y} {
+		for _, b := range s.b {
+			if b.op == OpConst {
+				if b.val >= 0x80 {
+					in.unsupported("strings.EqualFold of symbolic text with a non-ASCII operand")
+				}
+				continue
+			}
+			if !in.branch(in.tt.Bin(OpUlt, b, in.tt.b8[0x80])) {
+				in.unsupported("strings.EqualFold on symbolic non-ASCII byte")
+			}
+		}
+	}
+	if len(x.b) != len(y.b) {
+		return in.tt.tF
+	}
+	lower := func(b *Term) *Term {
+		isUp := in.tt.And(in.tt.Bin(OpUle, in.tt.b8['A'], b), in.tt.Bin(OpUle, b, in.tt.b8['Z']))
+		return in.tt.Ite(isUp, in.tt.Bin(OpAdd, b, in.tt.b8[32]), b)
+	}
+	cs := make([]*Term, len(x.b))
+	for i := range x.b {
+		cs[i] = in.tt.Bin(OpEq, lower(x.b[i]), lower(y.b[i]))
+	}
+	return in.tt.And(cs...)
 }
 
 func iBytesEqual(in *Interp, fn *ssa.Function, a []Value) Value {
